@@ -522,6 +522,67 @@ class Fn(object):
                 for t in (s.targets if not isinstance(s, ast.AugAssign) else [s.target]):
                     if isinstance(t, ast.Subscript) and isinstance(t.value, ast.Name) and t.value.id in params:
                         bad.append("parameter %s is changed in place: %s" % (t.value.id, self.src(s)))
+        # a local that IS (part of) an object the caller handed in — bound by `x = p`, `x = p[k]`, `x = p.get(k, ...)`, `for x in p[k]` — and
+        # is then changed in place (`x += ..` extends a bytearray / list in place, `x[i] = ..`, `x.append(..)`, an out-buffer of the codec):
+        # the caller's object changes, so a second call with the same argument does not see equal inputs (flow-insensitive, conservative)
+        def borrows(v, borrowed):
+            if isinstance(v, ast.Name):
+                return v.id in borrowed
+            if isinstance(v, ast.Subscript):
+                return not isinstance(v.slice, ast.Slice) and borrows(v.value, borrowed)
+            if isinstance(v, ast.Call) and isinstance(v.func, ast.Attribute) and v.func.attr in ("get", "setdefault", "pop", "values", "items"):
+                return borrows(v.func.value, borrowed)
+            if isinstance(v, ast.IfExp):
+                return borrows(v.body, borrowed) or borrows(v.orelse, borrowed)
+            if isinstance(v, ast.BoolOp):
+                return any(borrows(x, borrowed) for x in v.values)
+            if isinstance(v, ast.Call):
+                # another function of the package may hand back the very object it was given (a pass-through branch); the built-in
+                # constructors and the converter functions always make a new one
+                d = dotted(v.func) or ""
+                last = d.split(".")[-1]
+                if last in FRESH or (isinstance(v.func, ast.Attribute) and last in FRESH_METHODS):
+                    return False
+                return any(borrows(a, borrowed) for a in list(v.args) + [k.value for k in v.keywords])
+            return False
+        FRESH = {"bytearray", "bytes", "len", "int", "str", "list", "dict", "tuple", "set", "sorted", "range", "sum", "min", "max", "bool",
+                 "scsi_int_to_ba", "scsi_ba_to_int", "reversed", "enumerate", "zip", "type", "isinstance", "getattr", "hasattr", "print", "format"}
+        FRESH_METHODS = {"copy", "encode", "decode", "join", "format", "keys", "split", "strip", "hex", "to_bytes", "index", "count", "startswith", "endswith"}
+        borrowed = set(params)
+        changed = True
+        while changed:
+            changed = False
+            for s in ast.walk(fn):
+                tgts, val = [], None
+                if isinstance(s, ast.Assign):
+                    tgts, val = s.targets, s.value
+                elif isinstance(s, ast.For):
+                    tgts, val = [s.target], s.iter
+                if val is None or not borrows(val, borrowed):
+                    continue
+                for t in tgts:
+                    for n in ([t] if isinstance(t, ast.Name) else (list(t.elts) if isinstance(t, ast.Tuple) else [])):
+                        if isinstance(n, ast.Name) and n.id not in borrowed:
+                            borrowed.add(n.id)
+                            changed = True
+        derived = borrowed - params
+        for s in ast.walk(fn):
+            hit = None
+            if isinstance(s, ast.AugAssign) and isinstance(s.target, ast.Name) and s.target.id in derived \
+                    and isinstance(s.op, (ast.Add, ast.Mult, ast.BitOr, ast.BitAnd, ast.BitXor, ast.Sub)):
+                hit = s.target.id
+            if isinstance(s, (ast.Assign, ast.AugAssign, ast.Delete)):
+                for t in (s.targets if not isinstance(s, ast.AugAssign) else [s.target]):
+                    if isinstance(t, ast.Subscript) and isinstance(t.value, ast.Name) and t.value.id in derived:
+                        hit = t.value.id
+            if isinstance(s, ast.Call):
+                if isinstance(s.func, ast.Attribute) and s.func.attr in MUTATORS and isinstance(s.func.value, ast.Name) and s.func.value.id in derived:
+                    hit = s.func.value.id
+                d = dotted(s.func) or ""
+                if d.split(".")[-1] in ("decode_bits", "encode_dict") and len(s.args) == 3 and isinstance(s.args[2], ast.Name) and s.args[2].id in derived:
+                    hit = s.args[2].id
+            if hit:
+                bad.append("%s is (part of) an object the caller handed in and is changed in place: %s" % (hit, self.src(s)))
         return bad
 
     def translate(self):
@@ -601,6 +662,10 @@ def gen_pyfuncs(mods):
                          line=fn.lineno, file=mod.rel))
     lines.append("Definition py_program : program := [\n  %s].\n" % ";\n  ".join("(%s, %s)" % (coq_str(q), i) for q, i in defs))
     lines.append("Definition py_unknown : list string := [\n  %s].\n" % ";\n  ".join(coq_str(u[:160]) for u in unknown))
+    # builders / decoders that change, in place, an object that belongs to their caller (other than the documented out-buffer parameters):
+    # a second call with the same argument then does not see equal inputs
+    borrowed = [u for u in unknown if "an object the caller handed in" in u]
+    lines.append("Definition py_caller_mutations : list string := [%s].\n" % "; ".join(coq_str(u[:160]) for u in borrowed))
     return "\n".join(lines), dict(functions=info, unknown=unknown, import_ok=world.ok)
 
 
